@@ -223,6 +223,7 @@ definitions = {
         Attr('case_block'),
     ),
     'CaseBlock': (
+        CommentsAttr(),
         OpenBlock,
         Indent, Newline,
         children_newline,
